@@ -23,7 +23,7 @@ ASSUMPTIONS = ["probs[0] > 0 (otherwise odd degrees have no admissible split of 
                "floats are converted exactly to rationals; comparison at 1e-9 absolute on probabilities"]
 HEADLINE = ["configs", "split", "delta", "keys_checked", "degrees_checked", "multi_split_degrees", "target_inside", "target_outside", "dispatcher_path", "zero_prob_component", "recreate_checks"]
 REQUIRED = {t: {"split": 20, "delta": 20, "multi_split_degrees": 50, "target_inside": 5, "target_outside": 2,
-                "dispatcher_path": 20, "zero_prob_component": 3} for t in ("quick", "thorough")}
+                "dispatcher_path": 20, "zero_prob_component": 3, "earlier_loader_rechecked_after_a_later_one_was_built": 20, "integer_arithmetic_degree_functions": 5} for t in ("quick", "thorough")}
 TOL = 1e-9
 
 
@@ -132,7 +132,7 @@ def make_fp(cfg, asked):
     return fp, base
 
 
-def check_config(res, cfg):
+def check_config(res, cfg, keep=None):
     import gcmpy
     from gcmpy import JointDegreeNames as N
     T, probs, lo, hi = cfg["T"], cfg["probs"], cfg["lo"], cfg["hi"]
@@ -169,6 +169,8 @@ def check_config(res, cfg):
     if not isinstance(jdd, dict) or not jdd:
         res.violate("jdd-not-a-nonempty-dict", got=repr(jdd)[:200], cfg=cfg)
         return False
+    if keep is not None:
+        keep["obj"], keep["jdd"] = obj, dict(jdd)
     if any(p == 0.0 for p in probs):
         res.count("zero_prob_component")
     if cfg["fkind"] in ("poisson_int", "intbinomial"):
@@ -236,7 +238,19 @@ def run_case(case):
     res = Result()
     rng = random.Random(case["seed"])
     cfg = build_config(rng)
-    nt = check_config(res, cfg)
+    keep = {}
+    nt = check_config(res, cfg, keep)
+    if res.verdict == "held" and keep and rng.random() < 0.4:
+        # two loaders alive in one process: building (and checking) a later one must leave the earlier one's table alone
+        cfg2 = build_config(rng)
+        check_config(res, cfg2)
+        res.count("earlier_loader_rechecked_after_a_later_one_was_built")
+        if res.verdict == "held":
+            again = sut("read .jdd of the earlier loader", lambda: keep["obj"].jdd)
+            first = keep["jdd"]
+            if not (isinstance(again, dict) and set(again) == set(first) and all(abs(again[k] - first[k]) <= 1e-12 for k in first)):
+                res.violate("an-earlier-loader's-table-changed-when-a-later-loader-was-built", earlier=cfg, later=cfg2,
+                            before=repr(sorted(first.items()))[:300], now=repr(again)[:300])
     res.nontrivial = bool(nt)
     c = dict(cfg)
     res.digest = digest(c)
